@@ -71,6 +71,20 @@ def run_kernels(ks, gen_report, seed, n_lattice, n_real, driver, custom_gen=None
             st['untranslated'] = True
             continue
         f = lbg.resolve_real(k['target'], k.get('ctor', False))
+        rt = k.get('roundtrip')
+        if rt:
+            import importlib
+            modname, rest = k['target'].split(':')
+            cls_rt = getattr(importlib.import_module('ladybug_geometry.' + modname),
+                             rest.split('.')[0])
+            if rt == 'dict':
+                f = (lambda c: (lambda x: c.from_dict(x.to_dict())))(cls_rt)
+            elif rt == 'array':
+                f = (lambda c: (lambda x: c.from_array(x.to_array())))(cls_rt)
+            elif rt == 'copy':
+                f = lambda x: x.duplicate()     # noqa: E731
+            elif rt == 'eq':
+                f = lambda x, y: x == y         # noqa: E731
         if k.get('self_from'):
             import importlib
             sf = k['self_from']
@@ -97,6 +111,8 @@ def run_kernels(ks, gen_report, seed, n_lattice, n_real, driver, custom_gen=None
                     args = [g.value(p[1], p[2] if len(p) > 2 else None, stream,
                                     p[3] if len(p) > 3 else None)
                             for p in k['params']]
+                if k.get('roundtrip') == 'eq' and g.rng.random() < 0.5:
+                    args = [args[0], args[0].duplicate()]
                 pre = lbg.PRECONDITIONS.get(k.get('well_conditioned'))
                 if pre is not None and stream == 'real':
                     tries = 0
